@@ -1,5 +1,6 @@
 import Klepto.Driver.Common
 import Klepto.Model.Keys
+import Klepto.Model.Validate
 /-! line protocol for suite `keys` (M4): signatures, binding, `_keygen`, keymaps.  `Val = Nat`
 (objects interned by the harness). -/
 namespace Klepto.Driver
@@ -80,6 +81,8 @@ def keysStep (c : KeysCfg) (j : Json) : R Json := do
     match bind (← natField j "self") c.func cl with
     | some b => return Json.mkObj [("named", jPairs b.named), ("extraPos", jNats b.extraPos), ("extraKw", jPairs b.extraKw)]
     | none => return Json.null
+  | "validate" =>
+    return Json.mkObj [("valid", Json.bool (validate c.func (← callOf j)))]
   | "signature" =>
     match kSignature c.func with
     | some (e, d) => return Json.mkObj [("explicit", jNats e), ("defaults", jPairs d)]
